@@ -125,6 +125,27 @@ def directed_lifecycle_cases():
                         ops += pre
                     out.append({"tagA": 100 + n, "tagB": 5000 + n, "tsnA": 10 * n, "tsnB": 2**32 - 3 - n, "profile": "directed",
                                 "wrap": False, "ops": ops})
+    # id bookkeeping across close and re-use: one side opens channels, either side closes one of them, everything
+    # settles, then BOTH sides create channels at the same moment (glare): automatically chosen ids must not collide,
+    # freed ids may be used again, every channel opens on both sides
+    for opener in "AB":
+        other = "B" if opener == "A" else "A"
+        for first in (1, 2):
+            for closer in (opener, other, None):
+                for which in range(first):
+                    for glare in (1, 2):
+                        n += 1
+                        ops = [["start", "A"], ["start", "B"], ["heal"]]
+                        for k in range(first):
+                            ops.append(["create", opener, dict(label="c%d" % k, ordered=True)])
+                        ops.append(["heal"])
+                        if closer is not None:
+                            ops += [["close", closer, which], ["heal"]]
+                        for k in range(glare):
+                            ops.append(["create", "A", dict(label="gA%d" % k, ordered=True)])
+                            ops.append(["create", "B", dict(label="gB%d" % k, ordered=True)])
+                        out.append({"tagA": 100 + n, "tagB": 5000 + n, "tsnA": 10 * n, "tsnB": 2**32 - 3 - n,
+                                    "profile": "directed", "wrap": False, "ops": ops})
     return out
 
 
